@@ -154,6 +154,18 @@ PROFILES = {
          drv(400, 400, dict(DRIVE_W, droprange=0.6))],
         blobs=BLOBS, val_alphas=[1, 1, 2],
         regress=["findings/C09-blob-id-reuse.replay.json", "findings/C09-with-dropped-ondisk.replay.json"]),
+    # C11 physical tuning and cache sharing
+    "C11": tree_profile(
+        6, ["READ", "SCAN", "SCANX", "OPFAIL"],
+        c(Ops=CORE1, MaxSeq=4),
+        [sim(12, 22, MaxSeq=14, MaxTables=5, MaxHist=20, MaxSealed=2, Ops=CORE1 | {"snap"}, MaxSnaps=1, WriteBias=3),
+         drv(12, 140, DRIVE_SNAP_W)],
+        c(Ops=CORE1, MaxSeq=5),
+        [sim(200, 30, Keys={1, 2, 3}, MaxSeq=24, MaxTables=6, MaxHist=30, MaxSealed=2, Ops=CORE1 | {"snap"},
+             MaxSnaps=1, WriteBias=4),
+         drv(100, 400, DRIVE_SNAP_W)],
+        phys_count=96, replicate=4, harness_args=["--share-pairs"], scans={"prob": 0.4, "burst": 2},
+        val_alphas=[0, 1]),
     # C13 weak deletes under the single-delete discipline
     "C13": tree_profile(
         4, ["READ", "SCAN", "OPFAIL"],
